@@ -101,6 +101,7 @@ struct Runner : Hooks {
 
   // helpers
   void check_child_streams(size_t hi);
+  void on_child_unblock(Thread *t, Proc *c, uint64_t unblocked) override;
   char *str_slot[2] = { nullptr, nullptr };  // the caller's string-sink variables (stdout, stderr), kept across drain/run ops
   Proc *proc_of(const HState &h) { return h.uid >= 0 ? K->procs[(size_t) h.uid] : nullptr; }
   int expected_status(Proc *p) { return p->death_by_sig ? 128 + p->death_sig : p->death_code; }
